@@ -261,6 +261,42 @@ example : resumeCertStep 4 (some ⟨true, false, false, true, true⟩) = .error 
 example : resumeCertStep 4 (some ⟨true, false, true, true, true⟩) = .ok true := rfl
 example : resumeCertStep 2 (some ⟨true, false, false, true, true⟩) = .ok false := rfl
 
+/-! ## Issue side: what a full handshake stores, and histories issue → reconfigure → resume -/
+
+theorem C44_fact_issue_negotiated :
+    ticketStoresNegotiatedVersion = true ∧ cacheStoresNegotiatedVersion = true := by decide
+
+/-- **The stored session is the negotiated one.**  The state a full handshake seals into its ticket / puts into the
+    session cache carries the NEGOTIATED version and suite of that connection (not what the client offered), its
+    master secret and the client's certificates. -/
+theorem C44_issue_stores_negotiated (viaTicket : Bool) (helloVers : Nat) (p : Params) (m : List UInt8)
+    (cs : List (List UInt8)) :
+    issueState viaTicket helloVers p m cs = { vers := p.vers, suite := p.suite.id, master := m, certs := cs } := by
+  unfold issueState issuedVersion
+  rw [C44_fact_issue_negotiated.1, C44_fact_issue_negotiated.2]
+  cases viaTicket <;> rfl
+
+/-- **Issue, reconfigure, resume.**  A connection is negotiated by a full handshake (hello₁ under config₁ / rule₁) and its
+    ticket is later presented in hello₂ to a server holding the same ticket key under ANY other config₂ / rule₂ (version
+    range, suites, grade … changed).  If that server resumes, the resumed connection has the version, suite and master
+    secret of the FIRST connection — whatever the client offered then or offers now. -/
+theorem C44_issue_then_resume_keeps {C : Crypto} (hl : Laws C) (key iv : List UInt8) (hiv : iv.length = 16)
+    {cfg₁ cfg₂ : Config} {rule₁ rule₂ : Option Rule} {h₁ h₂ : Hello} {lk₁ : Lookups} {p₁ : Params}
+    (_hfull : readClientHello cfg₁ rule₁ h₁ lk₁ = .ok p₁)
+    (m : List UInt8) (cs : List (List UInt8)) (hwf : WF (issueState true h₁.vers p₁ m cs))
+    {r : Resumption}
+    (hr : resume C key cfg₂ rule₂ h₂ (encryptTicket C key iv (issueState true h₁.vers p₁ m cs)) none = .ok r)
+    (hres : r.params.resume = true) :
+    r.params.vers = p₁.vers ∧ r.params.suite.id = p₁.suite.id ∧ r.master = m := by
+  obtain ⟨st, _, hlk, hv, hs, hm, _⟩ := C44_keeps_params hr hres
+  have hdec := decrypt_encrypt hl key iv (issueState true h₁.vers p₁ m cs) hiv hwf
+  rw [hdec] at hlk
+  have hst : some (issueState true h₁.vers p₁ m cs) = some st := stateLookup_no_cache hlk
+  have hst' : st = issueState true h₁.vers p₁ m cs := (Option.some.inj hst).symm
+  rw [C44_issue_stores_negotiated] at hst'
+  subst hst'
+  exact ⟨hv, hs, hm⟩
+
 /-! Non-vacuity: a concrete history that resumes, and the forms of refusal. -/
 def xorC (ks : List UInt8) : Crypto :=
   { ctr := fun _ _ d => (d.zip (ks ++ List.replicate d.length 0)).map fun p => p.1 ^^^ p.2,
